@@ -1,5 +1,6 @@
 import Hyeong.Driver.Enc
 import Hyeong.Driver.NumOps
+import Hyeong.Driver.BigOps
 /-!
 hydrv — the model driver: answers the same one-line operations as harness/ (hyverif) from the
 formal model (`m.` prefix = Hyeong.Model, `s.` prefix = Hyeong.Spec). Imports core-only files.
@@ -27,6 +28,16 @@ def dispatch (f : List String) : String :=
   | ["m.numstr", a] => mNumStr a
   | ["s.numstr", a] => sNumStr a
   | ["m.numparse", t] => mNumParse t
+  | ["m.big", op, a, b] => mBig op a b none
+  | ["m.big", op, a, b, e] => mBig op a b (some e)
+  | ["s.big", op, a, b] => sBig op a b none
+  | ["s.big", op, a, b, e] => sBig op a b (some e)
+  | ["m.bignew", n] => mBigNew n
+  | ["s.bignew", n] => sBigNew n
+  | ["m.bigstr", b, a] => mBigStr b a
+  | ["m.bigparse", b, t] => mBigParse b t
+  | ["s.bigstr", b, a] => sBigStr b a
+  | ["s.bigparse", b, t] => sBigParse b t
   | _ => "BADOP"
 
 partial def loop (h : IO.FS.Stream) (out : IO.FS.Stream) : IO Unit := do
